@@ -38,8 +38,13 @@ def component_of(p):
 
 def execute(p, res):
     if p["kind"] == "schemes":
-        for spec in list(p["specs"]) + (list(reversed(p["specs"])) if len(p["specs"]) > 1 else []):
+        from kmc.engine import fresh_kaira
+        for spec in p["specs"]:
             scheme_case(spec, res)
+        if len(p["specs"]) > 1:
+            fresh_kaira()          # the reverse order starts from pristine module state as well
+            for spec in reversed(p["specs"]):
+                scheme_case(spec, res)
     elif p["kind"] == "gray":
         gray_range(p, res)
     else:
